@@ -373,3 +373,64 @@ pub mod liveness {
         v.into_iter().rev().collect()
     }
 }
+
+/// a plain member followed by a compact member of the same type spelling (and the reverse): the compact flag belongs to the member, not to the type
+#[derive(TypeInfo, Encode)]
+pub struct PlainThenCompact {
+    pub a: u32,
+    #[codec(compact)]
+    pub b: u32,
+    pub c: u32,
+    #[codec(compact)]
+    pub d: u32,
+}
+
+#[derive(TypeInfo, Encode)]
+pub enum PlainThenCompactVariants {
+    A(u64),
+    B {
+        #[codec(compact)]
+        x: u64,
+        y: u64,
+    },
+    C(#[codec(compact)] u64, u64),
+}
+
+/// user types that merely share their names with the std smart pointers: they have definitions (and ids) of their own
+pub mod lookalike_ptr {
+    #[derive(super::TypeInfo)]
+    pub struct Box<T>(pub T, pub u8);
+    #[derive(super::TypeInfo)]
+    pub struct Rc<T> {
+        pub strong: u32,
+        pub value: T,
+    }
+    #[derive(super::TypeInfo)]
+    pub struct Arc<T>(pub T);
+}
+
+#[derive(TypeInfo)]
+pub struct PointerLookalikes {
+    pub a: lookalike_ptr::Box<u32>,
+    pub b: Box<u32>,
+    pub c: lookalike_ptr::Arc<bool>,
+    pub d: &'static u8,
+    pub e: lookalike_ptr::Rc<u16>,
+    pub f: (lookalike_ptr::Box<u8>, u8),
+}
+
+/// a parameter that is both bound explicitly and skipped is skipped
+#[derive(TypeInfo)]
+#[scale_info(bounds(T: TypeInfo + 'static, U: TypeInfo + 'static), skip_type_params(T))]
+pub enum BoundAndSkipped<T, U> {
+    Left(PhantomData<T>),
+    Right(U),
+}
+
+#[derive(TypeInfo)]
+#[scale_info(skip_type_params(T))]
+#[scale_info(bounds(T: Default + 'static))]
+pub struct SkippedThenBound<T> {
+    pub marker: PhantomData<T>,
+    pub n: u8,
+}
